@@ -2054,7 +2054,8 @@ func (g *SpecGen) sizeContract(r *Record) {
 
 // walkSize emits the loop invariants of Size() for one field value.
 func (g *SpecGen) walkSize(t *Type, v, pre string, w *walk) {
-	if t.Kind != Arr || g.s.FixedSize(t.Elem) > 0 {
+	if t.Kind != Arr || (g.s.FixedSize(t.Elem) > 0 && t.Elem.Kind != EnumK) {
+		// the generator folds arrays of fixed-width primitives into len*width; arrays of enums are counted in a loop
 		return
 	}
 	k := w.ord
